@@ -105,6 +105,33 @@ func c14Exec(c *engine.Ctx, cs c14Case) {
 		if !checkXY("flat", g1, wx, wy, tol) || !checkXY("multipoint", g2, wx, wy, tol) || !checkXY("points", g3, wx, wy, tol) {
 			return
 		}
+		// the same points as separate Point values in DIFFERENT layouts (XY, XYZ, XYZM, five ordinates
+		// in turn, starting with each): only X and Y count
+		if len(pts) >= 2 && len(pts) <= 70 {
+			st := l.Stride()
+			mixed := []geom.Layout{geom.XY, geom.XYZ, geom.XYZM, geom.Layout(5)}
+			for shift := 0; shift < 4; shift++ {
+				var ps []*geom.Point
+				for i := range pts {
+					ml := mixed[(i+shift)%4]
+					co := make([]float64, ml.Stride())
+					co[0], co[1] = flat[i*st], flat[i*st+1]
+					for k := 2; k < len(co); k++ {
+						co[k] = float64(1000*k + i)
+					}
+					ps = append(ps, geom.NewPointFlat(ml, co).SetSRID(srid))
+				}
+				var g6 geom.Coord
+				if pn, _ := engine.Guard(func() { g6 = xy.PointsCentroid(ps[0], ps[1:]...) }); pn != nil {
+					fail("points-in-mixed-layouts/panic", fmt.Sprintf("PointsCentroid over points in layouts XY/XYZ/XYZM/5 (starting with %v) panicked: %v", mixed[shift], pn))
+					return
+				}
+				if !checkXY("points-in-mixed-layouts", g6, wx, wy, tol) {
+					return
+				}
+				c.Count("point_sets_in_mixed_layouts", 1)
+			}
+		}
 		// the same points as a MultiPoint that also has members WITHOUT a position (first, in the
 		// middle, last): the mean is taken over the points there are
 		if len(pts) <= 70 {
